@@ -2,6 +2,10 @@ module github.com/Vedant9500/WTF/verifharness
 
 go 1.25.5
 
-require github.com/Vedant9500/WTF v0.0.0
+require (
+	github.com/Vedant9500/WTF v0.0.0
+	github.com/sahilm/fuzzy v0.1.1
+	gopkg.in/yaml.v3 v3.0.1
+)
 
 replace github.com/Vedant9500/WTF => /repo
